@@ -59,8 +59,9 @@ def compare(V, behs, seeds, what, ctor=None, run=None):
                 else:
                     use = []
                     paths.append("count_unexplained")
-            for i, ((kind, e, exact, _), g) in enumerate(zip(use, got)):
-                paths += [f"ents.{i}.{p}" for p in E.compare_entity(kind, e, exact, g)]
+            for i, ((kind, e, exact, tg), g) in enumerate(zip(use, got)):
+                # a difference on an entity whose own form carries no deviation tag can never be attributed to a listed finding
+                paths += [f"{'ents' if tg else 'untagged'}.{i}.{p}" for p in E.compare_entity(kind, e, exact, g)]
         if paths:
             nbad += 1
             V.mismatch({"what": what, "ddl": tk[0], "ctor": tk[1], "run": tk[2], "paths": paths[:8],
